@@ -2,6 +2,7 @@
 import math
 
 import numpy as np
+from scipy import sparse
 from sknetwork.regression import Diffusion, Dirichlet
 from .util import mk_matrix, tolist
 
@@ -31,6 +32,18 @@ def _vec(v):
 
 def _fit(algo, a):
     m = mk_matrix(a['m'])
+    if a.get('prior_factors') and sparse.issparse(m) and m.format in ('csr', 'csc', 'coo'):
+        # the SAME estimator fitted first on the SAME matrix object carrying other weights (entry k multiplied by factor k), the
+        # weights then restored in place: the second fit is a fit on the graph the object now holds
+        orig = m.data.copy()
+        f = np.resize(np.array(a['prior_factors']), len(orig)).astype(orig.dtype)
+        m.data *= f
+        try:
+            algo.fit(m, values=_vals(a.get('values')), values_row=_vals(a.get('values_row')), values_col=_vals(a.get('values_col')),
+                     init=a.get('init'), force_bipartite=a.get('force_bipartite', False))
+        except Exception:       # noqa
+            pass
+        m.data[:] = orig
     algo.fit(m, values=_vals(a.get('values')), values_row=_vals(a.get('values_row')),
              values_col=_vals(a.get('values_col')), init=a.get('init'),
              force_bipartite=a.get('force_bipartite', False))
